@@ -180,7 +180,7 @@ def _trace_module_source_file(module: str) -> str | None:
 
             try:
                 module_spec = importlib.util.find_spec(module)
-            except ImportError:
+            except (ImportError, ValueError):  # ValueError: e.g. __main__.__spec__ is None
                 return None
 
             if module_spec is None:
